@@ -57,6 +57,13 @@ t_bidib_segment_state_intern *bidib_state_get_segment_state_ref(const char *segm
 t_bidib_board_accessory_state *bidib_state_get_board_accessory_state_ref(const char *accessory, bool point) { return g_known ? &g_bacc : NULL; }
 t_bidib_dcc_accessory_state *bidib_state_get_dcc_accessory_state_ref(const char *accessory, bool point) { return g_known2 ? &g_dacc : NULL; }
 
+t_bidib_train_state_intern g_trs; static t_bidib_train_peripheral_state g_tps[2]; static vp_garray g_vtps; static char g_pid[2][2];
+t_bidib_train_state_intern *bidib_state_get_train_state_ref(const char *train) { return g_known ? &g_trs : NULL; }
+static void mk_train_state(void) {
+	guint n; __CPROVER_assume(n <= 2); g_vtps.data = (gchar *)g_tps; g_vtps.len = n; g_vtps.elt_size = sizeof g_tps[0]; g_trs.peripherals = (GArray *)&g_vtps;
+	for (int k = 0; k < 2; k++) { g_pid[k][0] = (char)(0x61 + k); g_pid[k][1] = 0; g_tps[k].id = g_pid[k]; }
+	g_trs.on_track = g_trs.on_track ? 1 : 0; g_trs.set_is_forwards = g_trs.set_is_forwards ? 1 : 0;
+}
 #define ID_ARG (null_id ? NULL : "x")
 #define B01(x) ((x) = (x) ? 1 : 0)
 
@@ -145,5 +152,30 @@ void vp_harness(void) {
 		__CPROVER_assert(copy_of(q.dcc_accessory_state.state_id, g_dacc.data.state_id), "C17.accessory_state.state_id_is_an_independent_copy");
 	}
 	bidib_free_unified_accessory_state_query(q);
+#elif defined(VP_H_TRAIN_STATE)
+	mk_train_state();
+	t_bidib_train_state_query q = bidib_get_train_state(ID_ARG);
+	_Bool hit = !null_id && g_known;
+	VP_COVER(hit && g_vtps.len == 2); VP_COVER(!hit);
+	__CPROVER_assert(q.known == hit, "C17.train_state.known_iff_the_train_is_tracked");
+	if (hit) {
+		__CPROVER_assert(q.data.on_track == g_trs.on_track && q.data.orientation == g_trs.orientation && q.data.set_speed_step == g_trs.set_speed_step && q.data.set_is_forwards == g_trs.set_is_forwards &&
+		                 q.data.detected_kmh_speed == (int)g_trs.detected_kmh_speed && q.data.ack == g_trs.ack && q.data.peripheral_cnt == g_vtps.len, "C17.train_state.every_scalar_field_equals_the_tracked_state");
+		for (unsigned k = 0; k < 2; k++) if (k < g_vtps.len) __CPROVER_assert(copy_of(q.data.peripherals[k].id, g_pid[k]) && q.data.peripherals[k].state == g_tps[k].state, "C17.train_state.every_function_is_copied_with_its_state_and_an_independent_id");
+	} else __CPROVER_assert(q.data.peripherals == NULL, "C17.train_state.unknown_train_has_no_function_list_to_free");
+	bidib_free_train_state_query(q);
+#elif defined(VP_H_TRAIN_SCALARS)
+	mk_train_state();
+	_Bool hit = !null_id && g_known;
+	VP_COVER(hit && g_trs.on_track); VP_COVER(hit && !g_trs.on_track); VP_COVER(!hit);
+	__CPROVER_assert(bidib_get_train_on_track(ID_ARG) == (hit && g_trs.on_track), "C17.train_on_track.true_iff_tracked_and_on_track");
+	t_bidib_train_speed_step_query s1 = bidib_get_train_speed_step(ID_ARG);
+	__CPROVER_assert(s1.known_and_avail == (hit && g_trs.on_track) && (!s1.known_and_avail || (s1.speed_step == g_trs.set_speed_step && s1.is_forwards == g_trs.set_is_forwards)), "C17.train_speed_step.reports_the_tracked_step_and_direction_iff_on_track");
+	t_bidib_train_speed_kmh_query s2 = bidib_get_train_speed_kmh(ID_ARG);
+	__CPROVER_assert(s2.known_and_avail == (hit && g_trs.on_track) && (!s2.known_and_avail || s2.speed_kmh == (int)g_trs.detected_kmh_speed), "C17.train_speed_kmh.reports_the_detected_speed_iff_on_track");
+	char fn[2]; __CPROVER_assume(fn[0] != 0); fn[1] = 0; _Bool null_fn;
+	t_bidib_train_peripheral_state_query s3 = bidib_get_train_peripheral_state(ID_ARG, null_fn ? NULL : fn);
+	int m = (!null_fn && g_vtps.len > 0 && fn[0] == g_pid[0][0]) ? 0 : (!null_fn && g_vtps.len > 1 && fn[0] == g_pid[1][0]) ? 1 : -1;
+	__CPROVER_assert(s3.available == (hit && m >= 0) && (!s3.available || s3.state == g_tps[m].state), "C17.train_function_state.reports_the_state_of_the_named_function_iff_it_exists");
 #endif
 }
